@@ -125,7 +125,6 @@ theorem range_first_stops (reg : Registry) (xs : List Bytes) (m : Int) (x : Byte
   intro s hg hd
   rw [writeNode]
   simp only [loopParts_plain a b inner hcf, Option.map_none]
-  rw [rloopQB_plain_fn _ _ spec (by decide)]
   have hs0 : ({ s with c := { s.c with brkD := 0 } } : St) = s := by
     cases s with | mk c w => cases c; simp at hd; subst hd; rfl
   obtain ⟨k, v, ik, hgs, hbd, hw, hstop⟩ :=
@@ -137,7 +136,7 @@ theorem range_first_stops (reg : Registry) (xs : List Bytes) (m : Int) (x : Byte
     | true => right; exact ⟨.breakLoop, by simpa using hbe, by decide⟩
     | false => left; simpa using hbe
   have hst := hstop _ (pending_stops _ d hsig hbdd)
-  rw [loopNode_ok _ s _ (by rw [hs0]; exact hst) rfl]
+  rw [loopNode_ok _ s _ (by rw [hs0, rloopQB_plain_clean _ _ spec s (by decide) hg.err]; exact hst) rfl]
   refine ⟨rfl, ?_, ?_, ⟨hbg.bnd, hbg.wr, rfl, hbg.src, hbg.lim⟩⟩
   · simp [ok, hd]
   · simp only [ok]
@@ -178,7 +177,6 @@ theorem range_carries_on (reg : Registry) (xs : List Bytes) (m : Int) (x : Bytes
   intro s hg hd
   rw [writeNode]
   simp only [loopParts_plain a b inner hcf, Option.map_none]
-  rw [rloopQB_plain_fn _ _ spec (by decide)]
   have hs0 : ({ s with c := { s.c with brkD := 0 } } : St) = s := by
     cases s with | mk c w => cases c; simp at hd; subst hd; rfl
   have hrun : ∀ st, Good xs m st → st.c.brkD = 0 →
@@ -202,7 +200,7 @@ theorem range_carries_on (reg : Registry) (xs : List Bytes) (m : Int) (x : Bytes
     have hn0 : ((rloopLoop (fun st => writeSeq reg (f+5) [.raw a, inner, .raw b] st) spec (loopItems (.ins (.strs xs) .strings) []) 0 s).n == 0) = false := by
       rw [hn, loopItems_length, hxs]; simp
     simp only [hab, Bool.false_eq_true, if_false, hn0]
-  rw [loopNode_ok _ s _ (by rw [hs0]; exact hloop) rfl]
+  rw [loopNode_ok _ s _ (by rw [hs0, rloopQB_plain_clean _ _ spec s (by decide) hg.err]; exact hloop) rfl]
   refine ⟨rfl, ?_, ?_, ⟨hgl.bnd, hgl.wr, rfl, hgl.src, hgl.lim⟩⟩
   · simp [ok, hd, hbl]
   · simp only [ok]
@@ -266,7 +264,11 @@ theorem cloopLoop_all (xs : List Bytes) (m : Int) (run : St → Res) (p : Bytes)
         have hstep : stepVal cspec.cntOp v = v + 1 := by simp [stepVal, cspec]
         have hg3 := good_setI xs m _ (stepVal cspec.cntOp v)
           (good_chQB xs m rb.st ({ s with c := s.c.setStatic cspec.cnt (.int v) } : St).c.chQB hgr)
-        obtain ⟨h1, h2, h3, h4, h5⟩ := ih (stepVal cspec.cntOp v) (n + 1) _ hg3 hb (by rw [hstep]; omega)
+        -- the next iteration starts with `ctx.Err` cleared
+        have hg3' : Good xs m ({ ({ rb.st with c := { rb.st.c with chQB := ({ s with c := s.c.setStatic cspec.cnt (.int v) } : St).c.chQB } } : St) with
+            c := { (({ rb.st with c := { rb.st.c with chQB := ({ s with c := s.c.setStatic cspec.cnt (.int v) } : St).c.chQB } } : St).c.setStatic cspec.cnt (.int (stepVal cspec.cntOp v))) with err := none } } : St) :=
+          ⟨hg3.bnd, hg3.wr, rfl, hg3.src, hg3.lim⟩
+        obtain ⟨h1, h2, h3, h4, h5⟩ := ih (stepVal cspec.cntOp v) (n + 1) _ hg3' hb (by rw [hstep]; omega)
         refine ⟨h1, ?_, h3, h4, ?_⟩
         · refine h2.trans ?_
           show rb.st.w.out ++ _ = _
@@ -342,9 +344,9 @@ theorem counter_first_stops (reg : Registry) (xs : List Bytes) (m : Int) (hm : 0
   have hloop : cloopWith (fun st => writeSeq reg (f+5) [.raw a, inner, .raw b] st) none (f+5) cspec s =
       ok { (writeSeq reg (f+5) [.raw a, inner, .raw b] { ({ s with c := ((loopBounds s.c cspec).1).setStatic cspec.cnt (.int 0) } : St) with
               c := { (((loopBounds s.c cspec).1).setStatic cspec.cnt (.int 0)) with chQB := true } }).st with
-            c := ({ (writeSeq reg (f+5) [.raw a, inner, .raw b] { ({ s with c := ((loopBounds s.c cspec).1).setStatic cspec.cnt (.int 0) } : St) with
+            c := { (({ (writeSeq reg (f+5) [.raw a, inner, .raw b] { ({ s with c := ((loopBounds s.c cspec).1).setStatic cspec.cnt (.int 0) } : St) with
               c := { (((loopBounds s.c cspec).1).setStatic cspec.cnt (.int 0)) with chQB := true } }).st.c with
-                chQB := (((loopBounds s.c cspec).1).setStatic cspec.cnt (.int 0)).chQB, brkD := d } : Ctx).setStatic cspec.cnt (.int 1) } := by
+                chQB := (((loopBounds s.c cspec).1).setStatic cspec.cnt (.int 0)).chQB, brkD := d } : Ctx).setStatic cspec.cnt (.int 1)) with err := none } } := by
     unfold cloopWith cloopAfter
     simp only [hb]
     rw [cloopLoop]
@@ -361,8 +363,8 @@ theorem counter_first_stops (reg : Registry) (xs : List Bytes) (m : Int) (hm : 0
       | true => right; exact ⟨.breakLoop, by simpa using he, by decide⟩
       | false => left; simpa using he
     · exact hdd
-  rw [loopNode_ok _ s _ (by rw [hs0]; exact hloop) (by exact hgr.err)]
-  refine ⟨rfl, ?_, ?_, ⟨hgr.bnd, hgr.wr, hgr.err, ?_, ?_⟩⟩
+  rw [loopNode_ok _ s _ (by rw [hs0]; exact hloop) rfl]
+  refine ⟨rfl, ?_, ?_, ⟨hgr.bnd, hgr.wr, rfl, ?_, ?_⟩⟩
   · simp [ok, hd, Ctx.setStatic, Ctx.set]
   · simp only [ok]
     exact ho
